@@ -98,7 +98,7 @@ def front_stage(ctx, impl, cases, quick):
     if quick:
         texts = rng.sample(texts, min(len(texts), 220))
     texts += [list(x) for x in PREAMBLE_FIXED]
-    texts += [gen_preamble_text(rng) for _ in range(200 if quick else 3000)]
+    texts += [gen_preamble_text(rng) for _ in range(200 if quick else 2000)]
     fcases, n_unsup, n_rej = [], 0, 0
     for lines in texts:
         proto = impl.parse_front(lines)
@@ -321,7 +321,7 @@ def run(ctx):
     ctx.props("C03_wire")
     quick = ctx.tier == "quick"
     cases = corpus_cases(ctx)
-    cases += gen_cases(ctx, impl, *((400, 90, 330, 90) if quick else (6000, 1200, 5000, 1200)))
+    cases += gen_cases(ctx, impl, *((400, 90, 330, 90) if quick else (4000, 800, 3300, 800)))
     ctx.log("props compiled")
     differing = evaluate(ctx, impl, cases, "cases")
     ctx.log("main stream evaluated")
@@ -358,9 +358,9 @@ def run(ctx):
     ctx.assume.append("executions start from the initial state of a fresh application; the theorem quantifies over all "
                       "start states")
     report(ctx, differing)
-    seq_stage(ctx, impl, 100 if quick else 2000)
+    seq_stage(ctx, impl, 100 if quick else 1300)
     ctx.log("sequences evaluated")
-    q_stage(ctx, impl, 110 if quick else 3000)
+    q_stage(ctx, impl, 110 if quick else 2000)
     ctx.log("event programs evaluated")
     front_stage(ctx, impl, cases, quick)
     if ctx.broken and not ctx.violations:
